@@ -10,9 +10,11 @@ export PYTHONPATH="$wt/src"
 git diff --quiet -- src && { echo "worktree has no change applied; applying patch"; git apply _seed/patch.diff || exit 2; }
 timeout 900 /venv/bin/python _seed/demo.py > /tmp/seed_$id.mod.log 2>&1; rc_mod=$?
 # 2. demo on the unmodified tree must pass
-git stash -q -- src
+# (no `git stash`: the stash is shared by all worktrees of the repository)
+git diff -- src > /tmp/seed_$id.patch
+git apply -R /tmp/seed_$id.patch || exit 2
 timeout 900 /venv/bin/python _seed/demo.py > /tmp/seed_$id.orig.log 2>&1; rc_orig=$?
-git stash pop -q
+git apply /tmp/seed_$id.patch || exit 2
 # 3. test suite with the change
 ( /venv/bin/python -m pytest tests/test_combinatorically.py -q -p no:cacheprovider --timeout=900 2>&1 | tail -1 > /tmp/seed_$id.t1 ) &
 ( /venv/bin/python -m pytest tests_cffi -q -p no:cacheprovider --timeout=900 2>&1 | tail -1 > /tmp/seed_$id.t2 ) &
